@@ -43,8 +43,20 @@ def gen_world_spec(seed, rng):
     opt = {'v': rng.choice([0, 1, 2])}
     if rng.random() < 0.2:
         opt['shuffle_seed'] = rng.randint(0, 99)
-    return {'property': ID, 'seed': seed, 'kind': 'world', 'world': world, 'plan': [],
-            'opt': opt, 'modes': [{}, {'list': True}, {'j': rng.randint(2, 4)}],
+    plan = []
+    modes = [{}, {'list': True}, {'j': rng.randint(2, 4)}]
+    if rng.random() < 0.3:
+        # a layer that cannot be torn down (the rest is resumed in children), also together
+        # with -D, which is only meaningful in the parent
+        m = W.Model(world)
+        cands = [L['name'] for L in world['layers'] if m.has_hook(L['name'], 'tearDown')]
+        if cands:
+            plan.append({'site': 'layer.tearDown', 'ident': rng.choice(cands), 'a': 'raise',
+                         'exc': 'NotImplementedError', 'where': 'parent'})
+            modes.append({'j': rng.randint(2, 3), 'pm': True})
+            modes.append({'pm': True})
+    return {'property': ID, 'seed': seed, 'kind': 'world', 'world': world, 'plan': plan,
+            'opt': opt, 'modes': modes,
             'knobs': {'pipe_capacity': rng.choice([64, 4096, 65536])}, 'sched': {'prng': seed}}
 
 
